@@ -75,7 +75,7 @@ N_QUICK = 360
 N_THOROUGH = 16000
 
 SPECS = {
-    "C01": S(profiles=[("core-mix", 1.0)], projection="PExec",
+    "C01": S(profiles=[("core-mix", 0.75), ("decor", 0.25)], projection="PExec",
              chk="fun c obs => chk_C01 (cs_cfg c) (cs_beh c) (cs_hist c) obs",
              rule="a history is non-trivial when some Invoke executed a constructor or decorator whose value reached a consumer; distinct = distinct canonical JSON"),
     "C02": S(profiles=[("singleton", 0.7), ("core-mix", 0.3)], projection="PExecSet",
@@ -94,7 +94,7 @@ SPECS = {
     "C06": S(profiles=[("rejections", 1.0)], projection="PExec", twin="drop-rejected",
              chk2="fun c t p => chk_C06 (cs_hist c) (cs_impl c) t",
              rule="non-trivial: at least one Provide/Decorate was rejected and a later Invoke executed something"),
-    "C07": S(profiles=[("faults", 0.75), ("gfaults", 0.25)], projection="PExec",
+    "C07": S(profiles=[("faults", 0.5), ("gfaults", 0.2), ("dfaults", 0.3)], projection="PExec",
              chk="fun c obs => chk_C07 (cs_cfg c) (cs_hist c) obs ++ chk_prov (cs_beh c) (cs_hist c) obs",
              rule="non-trivial: some user function failed (error or panic) and a later Invoke demanded it again"),
     "C08": S(profiles=[("trees", 1.0)], projection="PExec",
